@@ -142,6 +142,11 @@ def run(ctx):
             headers = {"Content-Type": "text/xml; charset=utf-8", "SOAPAction": '"urn:a"'}
             for _h in range(rng.randint(0, 3)):
                 headers["X-%s" % rng.choice(["A", "b-c", "Tok_1", "Z9"])] = rng.choice(["v", "a b", "x;y=z", ""])
+            if rng.random() < 0.3:
+                # headers an HTTP library has defaults of its own for: the caller's value is the one delivered
+                headers[rng.choice(["User-Agent", "user-agent", "USER-AGENT"])] = "verif-agent/1.0"
+            if rng.random() < 0.2:
+                headers[rng.choice(["Accept", "accept"])] = "text/xml, application/soap+xml"
             # field names and content-coding values are case-insensitive; x-gzip = gzip (RFC 7230 3.2, RFC 7231 3.1.2.1)
             ce_req_name = rng.choice(["Content-Encoding", "Content-Encoding", "content-encoding", "CONTENT-ENCODING"])
             ce_label = ce
@@ -483,6 +488,64 @@ def run(ctx):
             ctx.fail("non-HTTP failure was turned into a TransportError", {}, repr(e), "URLError")
         except urllib.error.URLError:
             pass
+        # documents are opened the same way: an error status surfaces with its code and its body
+        for status in (403, 404, 500, 503):
+            body = b"<html>no %d</html>" % status
+            srv.httpd.plan = lambda h, status=status, body=body: {"status": status, "body": body}
+            ctx.case(("open-error", status), True)
+            try:
+                fp = suds.transport.http.HttpTransport().open(suds.transport.Request(srv.url("/doc.wsdl")))
+                got = ["opened", fp.read()[:60]]
+            except suds.transport.TransportError as e:
+                import gc
+                gc.collect()
+                got = ["TransportError", e.httpcode, e.fp.read() if e.fp else b""]
+            except Exception as e:
+                got = ["other", repr(e)]
+            if got != ["TransportError", status, body]:
+                ctx.fail("HTTP status not surfaced as documented (TransportError with code and body / reply)",
+                         {"status": status, "method": "open"}, [str(x)[:60] for x in got], ["TransportError", status, body])
+        # a peer that does not answer the connection attempt at all (accept queue full): urllib's URLError, unchanged
+        lst = socket.socket()
+        fillers = []
+        try:
+            lst.bind(("127.0.0.1", 0))
+            lst.listen(0)
+            lport = lst.getsockname()[1]
+            for _f in range(4):
+                f_ = socket.socket()
+                f_.setblocking(False)
+                f_.connect_ex(("127.0.0.1", lport))
+                fillers.append(f_)
+            import time
+            time.sleep(0.05)
+            probe = socket.socket()
+            probe.settimeout(0.3)
+            try:
+                probe.connect(("127.0.0.1", lport))
+                saturated = False
+            except OSError:
+                saturated = True
+            finally:
+                probe.close()
+            ctx.dist["connect-timeout:listener saturated=%s" % saturated] += 1
+            if saturated:
+                ctx.case("connect-timeout", True)
+                try:
+                    suds.transport.http.HttpTransport(timeout=0.4).send(
+                        suds.transport.Request("http://127.0.0.1:%d/x" % lport, b"<m/>"))
+                    ctx.fail("an unanswered connection attempt did not raise", {}, "returned", "URLError")
+                except suds.transport.TransportError as e:
+                    ctx.fail("non-HTTP failure was turned into a TransportError", {"kind": "connect-timeout"}, repr(e), "URLError")
+                except urllib.error.URLError:
+                    pass
+                except Exception as e:
+                    ctx.fail("a non-HTTP failure does not propagate unchanged (urllib raises URLError for it)",
+                             {"kind": "connect-timeout"}, repr(e), "URLError(timeout)")
+        finally:
+            for f_ in fillers:
+                f_.close()
+            lst.close()
         t = suds.transport.http.HttpTransport(timeout=1.5)
         for kind in ("reset", "silent"):
             srv.httpd.plan = lambda h, kind=kind: {kind: True}
